@@ -1,6 +1,6 @@
 (* The case interpreter of the correspondence check: one text line in, one canonical text line out.
    The Rust harness (`impldrv`) implements the same protocol on top of the real library. No proofs here. *)
-Require Import SD.Base SD.Text SD.Codes SD.Header SD.Name SD.RData SD.Packet SD.PktText SD.TextApi SD.Store SD.Pipeline SD.Owned.
+Require Import SD.Base SD.Text SD.Codes SD.Header SD.Name SD.RData SD.Packet SD.PktText SD.TextApi SD.Store SD.Pipeline SD.Owned SD.WfBool.
 From Coq Require Import String.
 Open Scope N_scope.
 
@@ -162,6 +162,7 @@ Definition run_build (args : list (list byte)) : list byte :=
     | Some (p, []) =>
       if tok_eqb mode "P" then out_line (write_packet p) bytes_to_hex
       else if tok_eqb mode "C" then out_line (write_packet_compressed p) bytes_to_hex
+      else if tok_eqb mode "W" then (if wf_packetb p then s2b "1" else s2b "0")   (* model only: does the C02 hypothesis cover p? *)
       else s2b "BADCASE"
     | _ => s2b "BADCASE"
     end
